@@ -35,9 +35,11 @@ DoubleSet == Positive \cup {DNeg(d) : d \in NegSubset}
 RadixOK(d) == d.c # "fin" \/ (d.e >= -60 /\ d.e + BnBitLen(d.m) <= 90)
 
 Nm(i) == VInt(i)
-FixedArgs == IF Quick THEN {0, 1, 2, 3, 5, 10, 20, 100} ELSE (0..21) \cup {50, 100}
-PrecArgs == IF Quick THEN {1, 2, 3, 5, 10, 16, 17, 21, 100} ELSE (1..22) \cup {50, 100}
-ExpArgs == IF Quick THEN {0, 1, 2, 5, 10, 16, 20, 100} ELSE (0..21) \cup {50, 100}
+FixedArgs == IF Quick THEN {0, 1, 2, 5, 10, 20} ELSE (0..21) \cup {50, 100}
+PrecArgs == IF Quick THEN {1, 2, 3, 5, 16, 17, 21} ELSE (1..22) \cup {50, 100}
+ExpArgs == IF Quick THEN {0, 1, 2, 5, 16, 20} ELSE (0..21) \cup {50, 100}
+\* the quick tier asks for 100 digits only on a few receivers (each costs bignum work with 10^400)
+LongReceivers == {ND("0.1"), ND("5e-324"), ND("1.7976931348623157e308"), ND("123.456"), ND("1e21"), ND("0")}
 RadixArgs == IF Quick THEN {2, 3, 8, 10, 16, 32, 36} ELSE 2..36
 OddArgs == {Nm(-1), Nm(101), VNumW(WNaN), VNumW(WPosInf), S("2"), VNumW(DToW(ND("1.9"))), Undef, Null, Nm(37), Nm(1)}
 OddReceivers == {ND("1.5"), ND("0"), ND("NaN"), ND("Infinity"), ND("-1e21"), ND("123.456")}
@@ -46,6 +48,7 @@ FmtCalls(d) ==
   \cup {[m |-> "toFixed", a |-> <<Nm(f)>>] : f \in FixedArgs}
   \cup {[m |-> "toPrecision", a |-> <<Nm(p)>>] : p \in PrecArgs}
   \cup {[m |-> "toExponential", a |-> <<Nm(f)>>] : f \in ExpArgs}
+  \cup (IF Quick /\ d \in LongReceivers THEN {[m |-> mm, a |-> <<Nm(100)>>] : mm \in {"toFixed", "toExponential", "toPrecision"}} ELSE {})
   \cup (IF RadixOK(d) THEN {[m |-> "toString", a |-> <<Nm(r)>>] : r \in RadixArgs} ELSE {})
   \cup (IF d \in OddReceivers THEN {[m |-> mm, a |-> <<v>>] : mm \in {"toString", "toFixed", "toExponential", "toPrecision"}, v \in OddArgs} ELSE {})
 
